@@ -63,6 +63,9 @@ pub struct Scenario {
     /// policies built (and dropped) earlier in the same process: what a builder remembers must not leak into the next policy
     #[serde(default)]
     pub earlier: Vec<Policy>,
+    /// (wave 17) a third of the handlers set `Access-Control-Allow-Origin` themselves: 1 = to the policy's origin, 2 = to another
+    #[serde(default)]
+    pub handlers_state_origin: u8,
 }
 
 const HDRS: [&str; 7] = ["Content-Type", "X-Custom", "Authorization", "X-Requested-With", "Accept", "*", "x_under.score~"];
@@ -204,7 +207,7 @@ pub fn generate(cfg: &RunCfg, out: &mut Outcome) -> Scenario {
     } else {
         Vec::new()
     };
-    Scenario { policy, app, reqs, earlier }
+    Scenario { policy, app, reqs, earlier, handlers_state_origin: t::weighted(&[4, 2, 1]) as u8 }
 }
 
 pub fn run(cfg: &RunCfg, direct: Option<&serde_json::Value>) -> Outcome {
@@ -301,6 +304,14 @@ fn execute(sc: &Scenario, out: &mut Outcome) {
     }
     let table = appgen::table(&sc.app);
     appgen::ERRORING.with(|e| e.set(true));
+    match sc.handlers_state_origin {
+        1 => {
+            out.probe("c14.handler_states_the_policy_origin_itself");
+            appgen::PRESET_ORIGIN.with(|p| *p.borrow_mut() = Some(sc.policy.origin.clone()));
+        }
+        2 => appgen::PRESET_ORIGIN.with(|p| *p.borrow_mut() = Some("https://elsewhere.example".to_string())),
+        _ => {}
+    }
     if !sc.earlier.is_empty() {
         out.probe("c14.policies_built_earlier_in_the_process");
     }
